@@ -178,6 +178,36 @@ def run(ctx):
                     ctx.count("cli_penalty_ok")
             if len(ctx.samples) < 4:
                 ctx.sample(dict(records=recs[:3], params_observed={t: base[t][1] for t in base}))
+    # a user-supplied penalty must replace that value EVERYWHERE it is used (leaf profiles, merged profiles, kernels): two alignment types that share
+    # their substitution matrix differ only in penalties, so a run of type A with all three penalties given explicitly as B's defaults must equal the
+    # default run of type B (pairs and values taken from the regenerated tables: dna <-> internal). Inputs of >= 3 sequences, so that profiles take part.
+    eq_cases = []
+    for j in range(14 if ctx.quick else 120):
+        recs_ = gen.family(rng, "dna", rng.randint(3, 9), rng.choice([25, 60, 140]), sub=0.15, indel=rng.choice([0.04, 0.1]), spice=False)
+        if gen.detect_kind(recs_) != "dna":
+            continue
+        th_ = rng.choice([1, 4])
+        for (ta, tb, pb) in ((0, 1, (8.0, 6.0, 8.0)), (1, 0, (8.0, 6.0, 0.0))):
+            A_ = Case(recs_, ta, pb[0], pb[1], pb[2], threads=th_, fmt="fasta", api=rng.choice(["file", "arr"]), tag="type %d with the defaults of type %d given explicitly" % (ta, tb))
+            B_ = Case(recs_, tb, -1, -1, -1, threads=th_, fmt="fasta", api=A_.api, tag="type %d default" % tb)
+            # and a single explicit tgpe (the only value in which the two types differ)
+            C_ = Case(recs_, ta, -1, -1, pb[2], threads=th_, fmt="fasta", api=A_.api, tag="type %d with tgpe of type %d" % (ta, tb))
+            eq_cases.append((A_, B_, C_))
+    sysrun.run_cases(kvh, [c for tr in eq_cases for c in tr])
+    for A_, B_, C_ in eq_cases:
+        ctx.evaluations += 2
+        if any(c.crashed or c.rc != 0 for c in (A_, B_, C_)):
+            fails.append(("run failed in the explicit-vs-default comparison: %s / %s / %s" % (A_.status, B_.status, C_.status), dict(a=A_.describe(), b=B_.describe())))
+            continue
+        ra, rb, rc3 = sysrun.parse_output(A_), sysrun.parse_output(B_), sysrun.parse_output(C_)
+        if ra != rb:
+            fails.append(("%s gives a different alignment than %s although both use the same matrix and the same three penalties" % (A_.tag, B_.tag), dict(a=A_.describe(), b=B_.describe(), rows_a=ra, rows_b=rb)))
+        elif rc3 != rb:
+            fails.append(("%s gives a different alignment than %s although they differ in that penalty only" % (C_.tag, B_.tag), dict(a=C_.describe(), b=B_.describe(), rows_a=rc3, rows_b=rb)))
+        else:
+            ctx.count("explicit_equals_other_types_default")
+    # the whole pipeline with user penalties against the composed model (profiles, kernels and the parameter block together)
+    diffs += C.pipeline_correspondence(ctx, kvh, [3 * ctx.seed + 2000] if ctx.quick else [3 * ctx.seed + 2000 + 30 * k for k in range(4)])
     # argv -> library call, judged against an independent expectation (not the Lean model): a decimal value given to --gpo/--gpe/--tgpe must reach
     # kalign_run as exactly (float)value, -n as the integer, the other two penalties as -1 (= library default)
     cl_lines, cl_meta = [], []
